@@ -201,6 +201,8 @@ class Prop(Check):
         "Obj.C06_siblings_ordered",
         "Obj.C06_location",
         "Obj.C06_location_nchar",
+        "Obj.C06_span_in_input",
+        "Obj.C06_location_built",
     ]
     DRIVER = "Drivers/Obj.lean"
     QUICK_CASES = 380
@@ -861,7 +863,12 @@ class Prop(Check):
         for c in cases:
             k = f"grammar:{c.get('mm_src', 'str')} model:{src_of(c)}"
             cfg[k] = cfg.get(k, 0) + 1
+        absn = None
+        for s in subs:
+            if isinstance(s, dict) and s.get("ptree") is not None:
+                absn = G.abs_stats(s["ptree"], absn)
         return {"distribution": {"outcomes": outcomes, "objects_total": sum(len(s["objs"]) for s in subs),
+                                 "abstract_nodes_with_several_children": absn,
                                  "linecol_positions": sum(len(s["positions"]) for s in subs),
                                  "mini_cases": sum(1 for c in cases if c["kind"] == "mini"),
                                  "multi_cases": sum(1 for c in cases if c["kind"] == "multi"),
